@@ -1,6 +1,7 @@
 package props
 
 import (
+	"regexp"
 	"strings"
 	"testing"
 	"unicode/utf8"
@@ -82,6 +83,10 @@ func (g *G) titleWords(k int, script string) string {
 		if g.intn(0, 11, "apos") == 0 {
 			w += g.pick("aposform", "'s", "n't", "'")
 		}
+		if g.intn(0, 19, "innersep") == 0 {
+			// separator characters inside a word separate nothing ("18:30", "e-mail", "and/or")
+			w = w + g.pick("innersepc", ":", "-", "/", "|") + g.tok()
+		}
 		if i > 0 && g.intn(0, 14, "dotword") == 0 {
 			// a word that starts with punctuation (".NET", ",v")
 			w = g.pick("dotform", ".", ",", "!") + w
@@ -90,6 +95,10 @@ func (g *G) titleWords(k int, script string) string {
 	}
 	return strings.Join(ws, " ")
 }
+
+// a separator pattern is one of | - \ / > » with white space on both sides, or a colon followed by
+// white space; the same characters inside a word ("e-mail", "18:30", "and/or") separate nothing
+var rxC15SeparatorPattern = regexp.MustCompile(` [|\-\\/>»] |: `)
 
 const c15Marker = "\x05REPEAT\x06"
 
@@ -234,7 +243,7 @@ func checkC15(c *Case) (*Violation, caseInfo) {
 		}
 		// exactness clause
 		n := utf8.RuneCountInString(normTitle)
-		if hasTitle && n >= 15 && n <= 150 && !strings.ContainsAny(normTitle, `|-\/>»:`) {
+		if hasTitle && n >= 15 && n <= 150 && !rxC15SeparatorPattern.MatchString(normTitle) {
 			info.Classes = append(info.Classes, "exactness-domain")
 			if res.Title != normTitle && viol == nil {
 				viol = violationf("C15 title-not-exact", "<title> %q has %d characters and no separator, but Title=%q", normTitle, n, res.Title)
@@ -255,7 +264,12 @@ func checkC15(c *Case) (*Violation, caseInfo) {
 		ctlWords := append([]string{}, words...)
 		ctlWords[len(ctlWords)-1] = "zq9control"
 		mk := func(text string) string {
-			return strings.Replace(c.HTML, c15Marker, "<"+tag+">"+html.EscapeString(text)+"</"+tag+">\n", 1)
+			inner := html.EscapeString(text)
+			if len(c.HTML)%3 == 0 && len(text) > 1 && text[0] < 0x80 && text[0] != '&' && text[0] != '<' {
+				// every third page: the first letter of the block is wrapped in inline markup (a drop cap)
+				inner = "<span>" + html.EscapeString(text[:1]) + "</span>" + html.EscapeString(text[1:])
+			}
+			return strings.Replace(c.HTML, c15Marker, "<"+tag+">"+inner+"</"+tag+">\n", 1)
 		}
 		_, outP := applyHTML(mk(res.Title), c.Opts)
 		_, outC := applyHTML(mk(strings.Join(ctlWords, " ")), c.Opts)
